@@ -88,7 +88,9 @@ WEXPORT uint64_t w_helper(uint32_t fn, uint64_t a) {
 //      (raw[0..sizeof)), and the value the operation returned (as a bit pattern) ----
 enum {
   OP_CTOR = 0, OP_ASSIGN, OP_STORE_LOAD, OP_RAW, OP_ADD, OP_SUB, OP_MUL, OP_DIV, OP_MOD, OP_AND, OP_OR, OP_XOR, OP_SHL, OP_SHR,
-  OP_PREINC, OP_POSTINC, OP_PREDEC, OP_POSTDEC, OP_COPY };
+  OP_PREINC, OP_POSTINC, OP_PREDEC, OP_POSTDEC, OP_COPY,
+  // compound operators with an `int` right-hand side (template parameter R = int, different from the exposed type)
+  OP_ADD_I = 20, OP_SUB_I, OP_AND_I, OP_OR_I, OP_XOR_I, OP_SHL_I, OP_SHR_I };
 
 template <typename W, typename T, typename S>
 static inline int64_t wrapper_op(uint32_t op, uint64_t v_bits, uint64_t d_bits, uint8_t* raw, uint64_t* ret) {
@@ -96,6 +98,7 @@ static inline int64_t wrapper_op(uint32_t op, uint64_t v_bits, uint64_t d_bits, 
   static_assert(sizeof(S) == sizeof(T), "stored representation has the width of the exposed type");
   static_assert(alignof(W) == 1, "wrapper is packed");
   T v = from_bits<T>(v_bits), d = from_bits<T>(d_bits);
+  const int di = static_cast<int>(static_cast<uint32_t>(d_bits)); // the operand as a plain int (OP_*_I)
   W w(v);
   int64_t rc = 0;
   switch (op) {
@@ -121,6 +124,13 @@ static inline int64_t wrapper_op(uint32_t op, uint64_t v_bits, uint64_t d_bits, 
           case OP_XOR: *ret = to_bits<T>(static_cast<T>(w ^= d)); break;
           case OP_SHL: *ret = to_bits<T>(static_cast<T>(w <<= d)); break;
           case OP_SHR: *ret = to_bits<T>(static_cast<T>(w >>= d)); break;
+          case OP_ADD_I: *ret = to_bits<T>(static_cast<T>(w += di)); break;
+          case OP_SUB_I: *ret = to_bits<T>(static_cast<T>(w -= di)); break;
+          case OP_AND_I: *ret = to_bits<T>(static_cast<T>(w &= di)); break;
+          case OP_OR_I: *ret = to_bits<T>(static_cast<T>(w |= di)); break;
+          case OP_XOR_I: *ret = to_bits<T>(static_cast<T>(w ^= di)); break;
+          case OP_SHL_I: *ret = to_bits<T>(static_cast<T>(w <<= di)); break;
+          case OP_SHR_I: *ret = to_bits<T>(static_cast<T>(w >>= di)); break;
           default: rc = W_CAPACITY;
         }
       } else {
